@@ -125,6 +125,28 @@ def cooldown_task_rules(chk: Check, repo: Repo) -> None:
     chk.ob("cooldown-end-sends-the-pending-value-iff-it-differs", cs.site(), s_ok and c_ok, "_cooldown_send: pending value != last payload on the bus -> send the pending value; equal -> cancel the task, send nothing", key="cooldown-send")
 
 
+def _idle_by_paths(cfg: CFG, target: int) -> bool:
+    """every path to `target` leaves a `cooldown task is not None` test on its false edge or a `.done()` test on its true
+    edge (the short-circuit form `task is not None and not task.done()` has no single must-fact)"""
+    t_none = [n.id for n in cfg.nodes if n.kind == "test" and n.ast is not None and ast.unparse(n.ast) in ("self._cooldown_task is not None",)]
+    t_none_pos = [n.id for n in cfg.nodes if n.kind == "test" and n.ast is not None and ast.unparse(n.ast) in ("self._cooldown_task is None",)]
+    t_done = [n.id for n in cfg.nodes if n.kind == "test" and n.ast is not None and ast.unparse(n.ast) == "self._cooldown_task.done()"]
+    if not t_done:
+        return False
+
+    def running(s_: int, t_: int, lab: str) -> bool:
+        if lab == "exc":
+            return False
+        if s_ in t_none and lab == "false":
+            return False
+        if s_ in t_none_pos and lab == "true":
+            return False
+        if s_ in t_done and lab == "true":
+            return False
+        return True
+    return target not in cfg.reachable([cfg.entry], edge_ok=running)
+
+
 def read_and_periodic(chk: Check, repo: Repo) -> None:
     rd = repo.func(M, "ExposeSensor.process_group_read")
     chk.unit(rd)
@@ -148,6 +170,10 @@ def read_and_periodic(chk: Check, repo: Repo) -> None:
     sends2 = _stmts(cfg2, _is_send)
     ok2 = len(sends2) == 1 and any(call_name(c) == "self.sensor_value.send_raw" and c.args and ast.unparse(c.args[0]) == SLOT for c in calls(sends2[0].ast)) and any(call_name(c2) == "self._restart_cooldown" for n in cfg2.nodes if n.kind == "stmt" and n.ast is not None and cfg2.dominates(sends2[0].id, n.id) for c2 in calls(n.ast))
     chk.ob("periodic-send-uses-the-pending-value", ps.site(), ok2, "_periodic_send_impl sends the pending value and restarts the cooldown", key="periodic")
+    # ... but not while a cooldown runs: that would put a value telegram on the bus less than one cooldown after the last
+    mf2 = cfg2.must_facts()
+    idle = bool(sends2) and all(any((a == "self._cooldown_task is None" and v) or (a == "self._cooldown_task is not None" and v is False) or (a == "self._cooldown_task.done()" and v) or (a == "not self._cooldown_task.done()" and v is False) for a, v in mf2[n.id]) or _idle_by_paths(cfg2, n.id) for n in sends2)
+    chk.ob("periodic-send-respects-a-running-cooldown", ps.site(), idle, "_periodic_send_impl sends " + ("only when no cooldown task is running" if idle else "also while the cooldown runs - the held-back value leaves early (or twice)"), key="periodic|cooldown")
     rc = repo.func(M, "ExposeSensor._restart_cooldown")
     chk.unit(rc)
     ok3 = any(call_name(c) == "self.xknx.task_registry.start_task" and c.args and ast.unparse(c.args[0]) == "self._cooldown_task" for c in calls(rc.node))
@@ -158,6 +184,11 @@ def slot_writers(chk: Check, repo: Repo) -> None:
     ws = [w for w in attr_writes(repo, "_payload_after_cooldown", include_mutators=False) if w.func.module.name == M]
     owners = sorted({w.func.name for w in ws})
     chk.ob("pending-slot-owners", "xknx/devices/expose_sensor.py", set(owners) == {"__init__", "set", "initialize_value"}, f"writers of the pending slot: {owners}", key="slot|owners")
+    # the two Task objects are the only place the cooldown and the period are kept: nobody but the constructor writes
+    # them (dropping them on removal turns a re-added / restarted sensor into one without cooldown and periodic send)
+    for attr in ("_cooldown_task", "_periodic_send_task"):
+        tw = sorted({w.func.name for w in attr_writes(repo, attr, include_mutators=False) if w.func.module.name == M})
+        chk.ob("task-configuration-survives-removal", "xknx/devices/expose_sensor.py", tw == ["__init__"], f"writers of {attr}: {tw}", key=f"task-owner|{attr}")
     iv = repo.func(M, "ExposeSensor.initialize_value")
     chk.unit(iv)
     w = [x for x in ws if x.func.name == "initialize_value"]
